@@ -233,6 +233,10 @@ func C14(r *simkit.Run) {
 			stmts = fmt.Sprintf("CREATE TABLE %s (id int, v text); INSERT INTO %s VALUES (1,'a'),(2,'b')", name, name)
 		case "view-only":
 			stmts = "CREATE VIEW only_view AS SELECT 1 AS one"
+			if t.Chance("view-with-empty-name", 1, 4) {
+				stmts = "CREATE VIEW \"\" AS SELECT 1 AS one"
+				r.Probe("view-with-empty-name")
+			}
 		case "virtual-tables":
 			// Full-text and R*Tree tables: virtual tables plus the shadow tables that hold their rows.
 			stmts = "CREATE VIRTUAL TABLE docs USING fts4(body); INSERT INTO docs (body) VALUES ('precious text'); CREATE VIRTUAL TABLE boxes USING rtree(id, minx, maxx); INSERT INTO boxes VALUES (1, 0.0, 1.0)"
